@@ -68,7 +68,12 @@ func c16Gen(rng *rand.Rand, conf string, idx int) any {
 		case 0:
 			w.Ops = append(w.Ops, C16Op{"stop"})
 		case 1:
-			w.Ops = append(w.Ops, C16Op{"lose"}, C16Op{"settle"})
+			if rng.Intn(3) == 0 {
+				// the runtime dies while the plugin is writing a reply to it: a partial write on the plugin's side
+				w.Ops = append(w.Ops, C16Op{"lose-midwrite"}, C16Op{"settle"})
+			} else {
+				w.Ops = append(w.Ops, C16Op{"lose"}, C16Op{"settle"})
+			}
 		default:
 			w.Ops = append(w.Ops, C16Op{"stop"}, C16Op{"stop"})
 		}
@@ -334,6 +339,19 @@ func c16Exec(t *testing.T, w *C16W, sc SchedCfg, ph *c16Phases, rec *c16Phases) 
 					if end := curEnd(); end != nil {
 						end.Close()
 						e.S.Probe("C16.fault.lose")
+					}
+					started = false
+				case "lose-midwrite":
+					if end := curEnd(); end != nil && !end.IsDown() {
+						pc := end.Conn.Peer() // the plugin's end of the connection
+						pc.FailWriteAt(pc.WrittenBytes() + 3 + 9*(i%2))
+						reqN++
+						id := fmt.Sprintf("m%d", reqN)
+						// the reply to this request is the write that fails half-way; whatever the call returns
+						end.PC.StateChange(context.Background(), &api.StateChangeEvent{Event: api.Event_START_CONTAINER,
+							Pod: &api.PodSandbox{Id: "pod"}, Container: &api.Container{Id: id, PodSandboxId: "pod"}})
+						e.S.Probe("C16.fault.lose-during-a-write-of-the-plugin")
+						end.Close()
 					}
 					started = false
 				case "join":
